@@ -293,7 +293,7 @@ const BAD_HEADERS: &[&str] = &["", "a b", "a:b", "x\r\ny", "h\u{e9}ader", "tab\t
 
 // ---------------------------------------------------------------- the invalid-field catalogue
 
-pub const INVALID_ITEMS: u64 = 52;
+pub const INVALID_ITEMS: u64 = 56;
 
 /// a command with exactly one invalid field among valid ones (or a missing target, a duplicate,
 /// an unknown enum value). Some entries are *accepted* by sozu (unknown path kind, unknown LB
@@ -427,7 +427,7 @@ fn invalid_item_inner(g: &mut G, st: &ConfigState, fx: &Fx, item: u64) -> Option
         16 => {
             let a = if g.rng.bool() { fresh_cert_addr(g.rng, st) } else { cert_target(g, st) };
             let mut c = g.cert(&fx.certs, 2);
-            c.certificate = NOT_PEM.to_owned();
+            c.certificate = if g.rng.chance(2, 3) { NOT_PEM.to_owned() } else { String::new() };
             cmd(RequestType::AddCertificate(AddCertificate { address: a, certificate: c, expired_at: None }), "AddCertificate/not_pem")
         }
         17 => {
@@ -618,7 +618,49 @@ fn invalid_item_inner(g: &mut G, st: &ConfigState, fx: &Fx, item: u64) -> Option
                 cmd(RequestType::SaveState("/nonexistent/state.json".to_owned()), "SaveState/undispatchable")
             }
         }
-        _ => cmd(RequestType::Status(Status {}), "Status/not_a_mutation"),
+        51 => cmd(RequestType::Status(Status {}), "Status/not_a_mutation"),
+        // ---- the certificate faults of AddCertificate applied to ReplaceCertificate and back
+        52 => {
+            // new certificate: well-formed PEM that is not X.509, no names override, on an
+            // address holding the old certificate (names are resolved by parsing the X.509)
+            let (a, fp, _) = existing_cert(g.rng, st)?;
+            let pem = *fx.not_x509.first()?;
+            let pem = if fx.not_x509.len() > 1 && g.rng.bool() { fx.not_x509[1] } else { pem };
+            let mut c = g.cert(&fx.certs, 0);
+            c.certificate = pem.to_owned();
+            c.names = vec![];
+            cmd(
+                RequestType::ReplaceCertificate(ReplaceCertificate { address: a, new_certificate: c, old_fingerprint: fp, new_expired_at: None }),
+                "ReplaceCertificate/pem_not_x509_empty_names",
+            )
+        }
+        53 => {
+            // same body with an explicit names override: the X.509 is never parsed
+            let (a, fp, _) = existing_cert(g.rng, st)?;
+            let pem = *fx.not_x509.first()?;
+            let mut c = g.cert(&fx.certs, 1);
+            c.certificate = pem.to_owned();
+            cmd(
+                RequestType::ReplaceCertificate(ReplaceCertificate { address: a, new_certificate: c, old_fingerprint: fp, new_expired_at: None }),
+                "ReplaceCertificate/pem_not_x509_explicit_names",
+            )
+        }
+        54 => {
+            let pem = *fx.not_x509.first()?;
+            let a = cert_target(g, st);
+            let mut c = g.cert(&fx.certs, 1);
+            c.certificate = pem.to_owned();
+            cmd(RequestType::AddCertificate(AddCertificate { address: a, certificate: c, expired_at: None }), "AddCertificate/pem_not_x509_explicit_names")
+        }
+        _ => {
+            // old fingerprint given in upper-case hex (same bytes)
+            let (a, fp, _) = existing_cert(g.rng, st)?;
+            let c = g.cert(&fx.certs, 2);
+            cmd(
+                RequestType::ReplaceCertificate(ReplaceCertificate { address: a, new_certificate: c, old_fingerprint: fp.to_uppercase(), new_expired_at: None }),
+                "ReplaceCertificate/existing_uppercase_old_fingerprint",
+            )
+        }
     })
 }
 
